@@ -21,8 +21,9 @@
 (*   is accepted iff some behaviour consumes every line.                   *)
 (* Strict = FALSE: (diagnosis of one rejected run) failed requirements are *)
 (*   recorded in viol and the observed effect is followed; behaviours with *)
-(*   more than one distinct violated property are pruned.  The set of viol *)
-(*   values of complete behaviours is reported.                            *)
+(*   more than two distinct violated ids are pruned.  The set of viol     *)
+(*   values of complete behaviours is reported (the driver keeps the ones  *)
+(*   of minimum size).                                                     *)
 (***************************************************************************)
 EXTENDS MQAbs, Json, IOUtils
 
@@ -275,7 +276,7 @@ Spec == Init /\ [][Next]_vars
 (* registers: 1 = furthest line reached, 2 = viol sets of complete behaviours *)
 Reg == /\ (IF l > TLCGet(1) THEN TLCSet(1, l) ELSE TRUE)
        /\ (IF l = NRec + 1 THEN TLCSet(2, TLCGet(2) \cup {viol}) ELSE TRUE)
-       /\ (Strict \/ Cardinality(viol) <= 1)
+       /\ (Strict \/ Cardinality(viol) <= 2)
 
 Accepted ==
   LET far == TLCGet(1) IN
